@@ -10,6 +10,8 @@ import (
 	"strconv"
 	"strings"
 	"time"
+
+	"golang.org/x/tools/go/ssa"
 )
 
 type EntrySpec struct {
@@ -25,6 +27,8 @@ type EntrySpec struct {
 	Workers   int                         `json:"workers"`
 	ConcCap   int                         `json:"conc_cap"`
 	MaxWallS  map[string]int              `json:"max_wall_s"`
+	UFMul     bool                        `json:"uf_mul"` // product abstraction for symbolic big.Int products (exact re-check of every counterexample)
+	Summaries map[string]string           `json:"summaries"` // real function (ssa name) -> harness function stating its contract
 }
 
 type UnitSpec struct {
@@ -216,7 +220,19 @@ func cmdCheck(args []string) int {
 				mw = 3000
 			}
 		}
-		res := runEntry(ld.prog, fn, runOpts{Workers: w, MaxPaths: e.MaxPaths, TimeoutMs: to, Params: params, Known: knownMode, ConcCap: e.ConcCap, MaxWallS: mw})
+		var sums map[string]*ssa.Function
+		if len(e.Summaries) > 0 {
+			sums = map[string]*ssa.Function{}
+			for target, rep := range e.Summaries {
+				rf := ld.pkgOf[u.Pkg].Func(rep)
+				if rf == nil {
+					fmt.Printf("ERROR: summary function %s not found in %s\n", rep, u.Pkg)
+					os.Exit(2)
+				}
+				sums[target] = rf
+			}
+		}
+		res := runEntry(ld.prog, fn, runOpts{Workers: w, MaxPaths: e.MaxPaths, TimeoutMs: to, Params: params, Known: knownMode, ConcCap: e.ConcCap, MaxWallS: mw, Summaries: sums, UFMul: e.UFMul})
 		ex := res.ex
 		r := entryReport{Fn: e.Fn, Pkg: u.Pkg, Params: params, Pass: pass, Paths: ex.Paths - ex.Cut, Cut: ex.Cut, PathsAsserting: ex.PathsWithAsserts, Asserts: ex.Asserts, AssertQueries: ex.AssertQueries,
 			Queries: res.queries, SolverS: res.solverTime.Seconds(), WallS: res.wall.Seconds(), Steps: ex.Steps, Merges: ex.Merges, Unknown: ex.Unknown, BoundHits: ex.BoundHits,
